@@ -1,6 +1,6 @@
 (** C11 obligation: values that cannot be written as valid OFX are refused rather than written: non-finite decimals (any scale), decimals off the
     declared quantum, strings over a strict limit, tokens outside the set, integers of n+1 digits of either sign, values of a wrong Python type. *)
-From OfxV Require Import Base.Prelude Base.Digits Gen.ScalarsGen Model.PyDecimal Model.Scalars Model.ScalarsLex Proofs.ScalarsText Proofs.PyDecimalProofs Proofs.ScalarsProofs Proofs.ScalarsLexProofs.
+From OfxV Require Import Base.Prelude Base.Digits Gen.ScalarsGen Model.PyDecimal Model.Scalars Model.ScalarsLex Proofs.ScalarsText Proofs.PyDecimalProofs Proofs.ScalarsProofs Proofs.ScalarsLexProofs Proofs.ScalarsThms.
 Local Open Scope N_scope.
 
 Theorem unwritable_values_refused : forall e,
@@ -10,14 +10,5 @@ Theorem unwritable_values_refused : forall e,
   (forall valid s, elem_sty e = TOneOf valid -> ~ In s valid -> unconvert e (PStr s) = Err Reject) /\
   (forall n z, elem_sty e = TInteger (Some n) -> (Z.of_N (10 ^ n) <= Z.abs z)%Z -> unconvert e (PInt z) = Err Reject) /\
   (forall v, right_type (elem_sty e) v = false -> unconvert e v = Err Reject).
-Proof.
-  intro e. repeat split.
-  - intros sc d H Hf. rewrite unconvert_elem, H. exact (nonfinite_refused sc _ d Hf).
-  - intros n neg c ex H Hx. rewrite unconvert_elem, H. destruct (decimal_limits n (elem_required e)) as (A & _). exact (A neg c ex Hx).
-  - intros n s H Hlt. rewrite unconvert_elem, H. destruct (string_limits n true (elem_required e) s) as (_ & B & _). exact (proj1 (B Hlt)).
-  - intros valid s H Hn. rewrite unconvert_elem, H. cbn [unconvert_sty unconvert_oneof]. destruct (mem_text s valid) eqn:E; [|reflexivity].
-    apply mem_text_In in E. contradiction.
-  - intros n z H Hz. rewrite unconvert_elem, H. destruct (integer_limits n (elem_required e) z) as [_ B]. exact (proj1 (proj2 (B Hz))).
-  - intros v H. rewrite unconvert_elem. exact (wrong_type_rejected_sty _ _ v H).
-Qed.
+Proof. exact unwritable_values_refused_l. Qed.
 Print Assumptions unwritable_values_refused.
